@@ -42,6 +42,8 @@ type Profile struct {
 	AimPct         int  // chance per block that the block time is aimed at a pending maturity / jail expiry (+-1 s)
 	SecondDenom    bool // some genesis accounts also hold a second denomination ("abc"); fees may be offered in it
 	Whale          bool // one account holds ~2^90 tokens and stakes amounts whose power does not fit an int64
+	RichGenesis       bool // genesis validators in jail / unstaking (with signing infos and queue entries), as in an exported state
+	ExportedGenesis   bool // ... and the pos genesis is marked "exported" with previous-state powers
 	ForeignKeyAccount bool // genesis holds an account whose recorded public key belongs to somebody else's address
 	SubSecond      bool // block times carry nanoseconds (Tendermint's do); jail expiries, maturities and evidence ages are hit to the nanosecond
 	MinStakeRaises bool // governance may raise pos/StakeMinimum in mid-history
@@ -199,8 +201,23 @@ func NewWorld(seed uint64, p Profile, idx *TxIndex) *World {
 		if i > 1 && r.Chance(30) {
 			st = g.Validators[i-1].Stake // equal powers
 		}
-		g.Validators = append(g.Validators, GenValidator{Actor: w.Eds[i], Stake: st})
+		gv := GenValidator{Actor: w.Eds[i], Stake: st}
+		if p.RichGenesis && i > 0 {
+			// what a state exported from a running chain contains: validators in jail, validators that are unstaking
+			// (a staked validator in jail is refused by pos.ValidateGenesis: not generated)
+			switch r.Intn(4) {
+			case 0:
+				gv.Unstaking, gv.Jailed = true, true
+				gv.JailedUntil = GenesisTime.Add(time.Duration(r.PickI64(-3600, 60, 600, 3600)) * time.Second)
+				gv.Completion = GenesisTime.Add(time.Duration(r.PickI64(30, 600, 7200)) * time.Second)
+			case 1:
+				gv.Unstaking = true
+				gv.Completion = GenesisTime.Add(time.Duration(r.PickI64(30, 600, 7200)) * time.Second)
+			}
+		}
+		g.Validators = append(g.Validators, gv)
 	}
+	g.Exported = p.RichGenesis && p.ExportedGenesis && uint64(len(g.Validators)) <= g.PosParams.MaxValidators
 	w.Cfg = g
 	w.Now = GenesisTime
 	w.Env = NewEnv(idx)
